@@ -578,6 +578,53 @@ pub fn descriptor_models(u: &Universe, n_seg: usize, n_shwsh: usize, n_leg: usiz
             out.push(D::Tr("KI".into(), vec![(0, v)]));
         }
     }
+    // guarded fragments: every B term F one node below the bound, as and_v(v:pk(KG),F). The guard
+    // makes fragments that are non-malleable but not "safe" on their own (a signature-free branch
+    // next to a signed one) part of a sane descriptor, four nodes deeper than the plain enumeration.
+    let guard = |f: &T| T::AndV(Box::new(T::Verify(Box::new(T::Check(Box::new(T::PkK("K9".into())))))), Box::new(f.clone()));
+    for t in seg.iter().filter(|t| t.size() + 1 <= n_seg && t.size() >= 2) {
+        out.push(D::Wsh(guard(t)));
+    }
+    for t in tap.iter().filter(|t| t.size() <= n_tap.max(4) && t.size() + 1 <= n_seg && t.size() >= 2) {
+        out.push(D::Tr("KI".into(), vec![(0, guard(t))]));
+    }
+    // wide thresholds (beyond the node bound, fixed shapes): thresh over 3 and 4 children of the
+    // usual kinds and k-of-3 / k-of-4 multisigs, every k. Over- and under-satisfaction, the
+    // position of the dissatisfied children and the cost ordering only show with n >= 3.
+    {
+        let pk = |i: usize| T::Check(Box::new(T::PkK(format!("K{}", i))));
+        let spk = |i: usize| T::Swap(Box::new(pk(i)));
+        let ks = |a: usize, n: usize| -> Vec<String> { (a..a + n).map(|i| format!("K{}", i)).collect() };
+        let sln_older = T::Swap(Box::new(T::OrI(Box::new(T::False), Box::new(T::ZeroNotEqual(Box::new(T::Older(5)))))));
+        let a_sha = T::Alt(Box::new(T::Sha256("H1".into())));
+        let mut wide: Vec<(T, bool)> = vec![]; // (term, ecdsa-only)
+        for k in 1..=3 {
+            wide.push((T::Thresh(k, vec![pk(1), spk(2), spk(3)]), false));
+            wide.push((T::Thresh(k, vec![pk(1), spk(2), a_sha.clone()]), false));
+            wide.push((T::Thresh(k, vec![pk(1), spk(2), sln_older.clone()]), false));
+            wide.push((T::Thresh(k, vec![T::Multi(1, ks(1, 2)), T::Alt(Box::new(T::Multi(1, ks(3, 2)))), spk(5)]), true));
+            wide.push((T::Multi(k, ks(1, 3)), true));
+        }
+        for k in [1usize, 2, 4] {
+            wide.push((T::Thresh(k, vec![pk(1), spk(2), spk(3), spk(4)]), false));
+            wide.push((T::Multi(k, ks(1, 4)), true));
+        }
+        for (t, ecdsa) in &wide {
+            out.push(D::Wsh(t.clone()));
+            if *ecdsa {
+                out.push(D::Sh(t.clone()));
+            } else {
+                out.push(D::Tr("KI".into(), vec![(0, t.clone())]));
+            }
+        }
+        for k in 1..=3 {
+            out.push(D::Tr("KI".into(), vec![(0, T::MultiA(k, ks(1, 3)))]));
+            out.push(D::Tr("KI".into(), vec![(0, T::Thresh(k, vec![T::MultiA(1, ks(1, 2)), T::Alt(Box::new(T::MultiA(1, ks(3, 2)))), spk(5)]))]));
+        }
+        for k in [1usize, 2, 4] {
+            out.push(D::Tr("KI".into(), vec![(0, T::MultiA(k, ks(1, 4)))]));
+        }
+    }
     // multi-leaf trees: ALL ordered pairs of B leaves <= n_tree2 nodes (2-leaf tree), and ALL
     // ordered triples of B leaves <= n_tree3 nodes in both 3-leaf shapes. Keys distinct across leaves.
     let shift = |t: &T, off: usize| {
